@@ -294,6 +294,7 @@ MC_BOM_QUICK = [
     C('UTF-8', 'remove', 'utf8', True, 2, [4, 5, 64], [0x41, 0x80, 0xEF, 0xBB, 0xBF]),
     C('x-user-defined', 'sniff', 'utf8', False, 2, [4, 5, 64], BOMA),
     C('Shift_JIS', 'remove', 'utf16', False, 2, [2, 3, 64], BOMA),
+    C('UTF-16LE', 'sniff', 'utf8', True, 2, [4, 5, 64], [0x41, 0x00, 0xD8, 0xDC, 0xFE, 0xFF, 0xEF]),
 ]
 MC_BOM_THOROUGH = MC_BOM_QUICK + [
     C('windows-1252', 'sniff', 'utf8', True, 3, [4, 5, 6, 64], BOMA),
@@ -302,7 +303,9 @@ MC_BOM_THOROUGH = MC_BOM_QUICK + [
     C('replacement', 'sniff', 'utf8', False, 3, [4, 5, 64], BOMA),
     C('EUC-KR', 'sniff', 'utf8', True, 3, [4, 5, 64], BOMA),
     C('x-user-defined', 'sniff', 'utf16', True, 3, [2, 3, 64], BOMA),
-    C('UTF-16LE', 'remove', 'utf16', False, 3, [2, 3, 64], [0x41, 0x00, 0xFE, 0xFF, 0xEF]),
+    C('UTF-16LE', 'remove', 'utf16', False, 3, [2, 3, 64], [0x41, 0x00, 0xD8, 0xDC, 0xFE, 0xFF, 0xEF]),
+    C('UTF-16BE', 'off', 'utf8', True, 4, [4, 5, 6, 7, 8, 64], [0x00, 0x41, 0xD8, 0xDC, 0xFF]),
+    C('UTF-16LE', 'off', 'utf16', False, 4, [2, 3, 4, 64], [0x00, 0x41, 0xD8, 0xDC, 0xFF]),
 ]
 
 
